@@ -429,7 +429,7 @@ func genRules(r *simkit.RNG, sc *Scenario, k *knobs) string {
 	return strings.Join(lines, "\n") + simkit.Pick(r, []string{"\n", "", "\n\n"})
 }
 
-var spellings = []string{"abs", "trail", "dot", "dotdot", "rel", "symlink-abs", "symlink-rel"}
+var spellings = []string{"abs", "trail", "dot", "dotdot", "rel", "symlink-abs", "symlink-rel", "symlink-abs-trail", "symlink-abs-dot", "symlink-chain"}
 var cwds = []string{"/cwd", "/w", "/w/src"}
 var wchunks = [][]int{nil, {1}, {7}, {512}, {4096}, {3, 5, 11}}
 
